@@ -426,7 +426,9 @@ func (r *rlReal) project() map[string]any {
 func rlComp() *x4Comp {
 	return &x4Comp{
 		module: "Realms", checks: rlChecks, genCfg: "Realms_Gen.cfg",
-		defaults: func() x4Op { return x4Op{"k": "", "w": 0, "n": 0, "b": false, "v": 0, "fk": "none", "fst": 0, "fb": "none"} },
+		defaults: func() x4Op {
+			return x4Op{"k": "", "w": 0, "n": 0, "b": false, "v": 0, "fk": "none", "fst": 0, "fb": "none"}
+		},
 		results: func() map[string]any {
 			return map[string]any{"ok": true, "ret": []int{}, "ek": "none", "reqs": []map[string]any{}, "open": 0}
 		},
